@@ -3,6 +3,7 @@
 #include "core/driver.h"
 #include <sys/mman.h>
 #include <cstddef>
+#include <deque>
 #include <map>
 #include <climits>
 #include <set>
@@ -580,8 +581,32 @@ template <class T> struct TreeSim
     }
 
     // ------------------------------------------------------------ bursts
+    int deep = 0;
+    // The sparsest AVL shape (a Fibonacci tree: every node's left subtree one level taller than its right one) inserted in
+    // level order.  Every prefix of a level order is balanced, so no insertion rotates and the library ends up with exactly
+    // that shape: the only way to a tree of more than 32 levels with "only" 15 million elements.
+    bool fib_fill(int client)
+    {
+        std::vector<size_t> S = {0, 1};
+        while (S.back() + S[S.size() - 2] + 1 <= std::min(N, (size_t)U)) S.push_back(S.back() + S[S.size() - 2] + 1);
+        int const h = (int)S.size() - 1;
+        std::deque<std::pair<int, size_t>> q; q.push_back({h, 0});
+        uint64_t i = 0;
+        while (!q.empty() && c.ok())
+        {
+            int const hh = q.front().first; size_t const off = q.front().second; q.pop_front();
+            if (hh <= 0) continue;
+            size_t const L = S[(size_t)hh - 1];
+            if (!do_insert(client, i++, (int)(off + L))) return false;
+            q.push_back({hh - 1, off});
+            if (hh >= 2) q.push_back({hh - 2, off + L + 1});
+        }
+        c.st.add("probe.fibonacci_fill");
+        return true;
+    }
     bool do_burst(Op const &o)
     {
+        if (deep >= 2 && T::is_avl() && model.empty()) return fib_fill(o.client);
         uint64_t const v0 = (uint64_t)(o.a[0] < 0 ? -o.a[0] : o.a[0]);
         size_t n = 2 + (size_t)((uint64_t)(o.a[1] < 0 ? -o.a[1] : o.a[1]) % 40);
         if (check_every > 1 && (v0 % 8) < 3) n = N; // big-tree run: a filling burst fills the pool
@@ -631,8 +656,11 @@ template <class T> struct TreeSim
     // ------------------------------------------------------------ interpreter
     void exec(Plan const &p)
     {
-        N = (size_t)std::max<int64_t>(1, std::min<int64_t>(400000, p.knob("nodes", 32)));
-        U = (int)std::max<int64_t>(1, std::min<int64_t>(400000, p.knob("universe", 16)));
+        deep = (int)p.knob("deep", 0);
+        int64_t const cap = deep >= 2 ? 30000000 : 400000; // deep == 2: the multi-million-node items of the thorough tier
+        N = (size_t)std::max<int64_t>(1, std::min<int64_t>(cap, p.knob("nodes", 32)));
+        U = (int)std::max<int64_t>(1, std::min<int64_t>(cap, p.knob("universe", 16)));
+        if (deep >= 2) cpu_alarm(1500); // such an item legitimately takes minutes of CPU time; the driver re-arms its own limit for the next item
         nclients = (int)std::max<int64_t>(1, std::min<int64_t>(4, p.knob("clients", 1)));
         g_cmp_style = (int)(p.knob("cmpstyle", 0) % 3);
         check_every = (size_t)std::max<int64_t>(1, p.knob("check_every", 1));
@@ -723,8 +751,21 @@ template <class T> struct TreeSim
         { // every key of the deep monotone tree must be found, through all three ways of passing the key
             c.opi = (int)p.ops.size();
             c.st.add("probe.deep_tree_every_key_looked_up");
-            { size_t deepest = 0; for (size_t i = 0; i < N; i += 1) if (resident[i]) { size_t d = 0; for (Node *x = nd((int)i); x; x = T::parent(x)) ++d; if (d > deepest) deepest = d; } c.logf("deep tree: %zu elements, %zu levels\n", model.size(), deepest); if (deepest > 32) c.st.add("probe.deep_tree_more_than_32_levels"); }
+            { size_t deepest = 0; for (size_t i = 0; i < N; i += 1) if (resident[i]) { size_t d = 0; for (Node *x = nd((int)i); x; x = T::parent(x)) ++d; if (d > deepest) deepest = d; } c.logf("deep tree: %zu elements, %zu levels\n", model.size(), deepest); if (deepest > 32) c.st.add("probe.deep_tree_more_than_32_levels"); if (deepest > 40) c.st.add("probe.deep_tree_more_than_40_levels"); }
             for (int key = 0; key < U && c.ok(); ++key) do_search(key, key % 101 == 0 ? 1 : key % 103 == 0 ? 2 : 0);
+            if (deep >= 2 && struct_prop)
+            { // removals whose rebalancing has to climb the whole height: first the smallest key (the deepest leaf of the Fibonacci
+              // tree, every ancestor of which loses a level; a leaf of the all-black shallow side of the ascending red-black
+              // fill), then the greatest key (the shallowest Fibonacci leaf: a rotation at every level), and the root
+                for (int k = 0; k < 16 && c.ok() && !model.empty(); ++k)
+                {
+                    int const id = k % 4 == 3 ? id_of(root.node) : k % 4 == 1 ? model.rbegin()->second : model.begin()->second;
+                    if (id < 0 || !resident[(size_t)id]) break;
+                    if (!do_remove_id(id)) break;
+                    if (k < 3 || k == 15) check_struct("deep-removal", true);
+                }
+                c.st.add("probe.deep_tree_removals_checked");
+            }
         }
         if (c.ok() && !precond_failed && iter_prop)
         {
@@ -791,6 +832,15 @@ struct TreeEngine : Engine
           // 34), followed by a lookup of every key
             p.ops.clear();
             p.set("nodes", 300000); p.set("universe", 300000); p.set("check_every", 65536); p.set("clients", 1); p.set("straddle", 0); p.set("deep", 1);
+            Op o; o.kind = T_BURST; o.client = 0; o.a[0] = 0; o.a[1] = 0; o.a[2] = 0; o.a[3] = 0;
+            p.ops.push_back(o);
+        }
+        if (tier && prop != "C03" && r.chance(1, 4000000))
+        { // thorough tier only, a handful per sweep: 14 930 351 elements as a Fibonacci tree (AVL, 33 levels) or 6 000 000 ascending
+          // keys (red-black, more than 40 levels), a lookup of every key and removals that rebalance along the whole height
+            p.ops.clear();
+            int64_t const n = kind == 0 ? 14930351 : 6000000;
+            p.set("nodes", n); p.set("universe", n); p.set("check_every", 1 << 23); p.set("clients", 1); p.set("straddle", 0); p.set("deep", 2);
             Op o; o.kind = T_BURST; o.client = 0; o.a[0] = 0; o.a[1] = 0; o.a[2] = 0; o.a[3] = 0;
             p.ops.push_back(o);
         }
